@@ -655,6 +655,28 @@ def build():
     ips_rows.sort()
     check_consts = [num(m1.group(1)), num(m2.group(1)), num(m3.group(1)), num(c1.group(1)), num(c2.group(1)), num(c3.group(1)),
                     num(s1.group(1)), num(s2.group(1))] + [num(g) for g in gws]
+    # the helpers behind `name.compose_canonical(target)`: every label goes through
+    # Label::compose_canonical, which lower-cases every octet.  A helper that keeps a label's
+    # case (skips the first label, stops early, copies an octet unchanged) does not match.
+    canon_impls = 0
+    namedir = os.path.join(REPO, "src/base/name")
+    for fn in sorted(os.listdir(namedir)):
+        if not fn.endswith(".rs"):
+            continue
+        src_n = strip_comments(read(os.path.join("src/base/name", fn)))
+        for mm in re.finditer(r"\bfn\s+compose_canonical\s*<", src_n):
+            j = src_n.index("{", src_n.index("->", mm.end()))
+            body = " ".join(block_from(src_n, j).split())
+            if fn == "label.rs":
+                if body != ("target.append_slice(&[self.len() as u8])?; for ch in self.into_iter() { "
+                            "target.append_slice(&[ch.to_ascii_lowercase()])?; } Ok(())"):
+                    raise GenError("Label::compose_canonical: unrecognised body %r" % body)
+            else:
+                if body != "for label in self.iter_labels() { label.compose_canonical(target)?; } Ok(())":
+                    raise GenError("%s: compose_canonical of a name type: unrecognised body %r" % (fn, body))
+            canon_impls += 1
+    if canon_impls < 3:
+        raise GenError("compose_canonical helpers: only %d found" % canon_impls)
     rows.sort()
     parse_rows.sort()
 
@@ -681,6 +703,7 @@ def build():
     # subnet: IPv4 / IPv6 family; IPSECKEY gateway sizes none / IPv4 / IPv6
     L.append(("check_consts_src", "list N", nl(check_consts)))
     L.append(("ipseckey_checks_consumed", "bool", b(ipseckey_consumed)))
+    L.append(("canonical_helpers_lower_all_labels", "bool", "true"))
     L.append(("ipseckey_src", "list (N * schema)",
               "[" + "; ".join("(%d%%N, mkS [%s] None false (PIpseckey %d%%N))" % (g, "; ".join(["U8", "U8", "U8"] + gw + ["Rest"]), g)
                               for g, gw in ips_rows) + "]"))
